@@ -31,7 +31,8 @@
 (***************************************************************************)
 EXTENDS Layout
 
-CONSTANT Lvl        \* size of the entry alphabet of the exhaustive / export runs (1 quick, 2 thorough)
+CONSTANTS Lvl,      \* size of the entry alphabet of the exhaustive / export runs (1 quick, 2 thorough)
+          Doors     \* "c" the C doors, "cxx" the property access of the C++ object interface, "all" both
 
 ---------------------------------------------------------------------------
 (* entries: [name, v, x]   v = value argument of Layout.tla or NoVal;       *)
@@ -183,7 +184,7 @@ NoExtra == [x \in {} |-> 0]
 DoorAnswer(a, arg, o, ret, perm, extra) ==
   obs' = [a |-> a, arg |-> arg, tgt |-> "", den |-> <<>>, door |-> o, perm |-> perm,
           exp |-> [ret |-> ret, p0 |-> AllView1(kind, t1'[1]), p1 |-> AllView1(kind, t1'[2]), shared |-> SharedCount',
-                   alt |-> perm] @@ extra]
+                   alt |-> [nm \in {x \in DOMAIN perm : perm[x] # {View1(kind, t1'[o], x)}} |-> perm[nm]]] @@ extra]
 Commit(o, s) ==
   /\ t1' = [t1 EXCEPT ![o] = s.a]
   /\ t2' = [t2 EXCEPT ![o] = s.r]
@@ -311,6 +312,45 @@ TName(o) ==
   /\ obs' = [a |-> "tname", arg |-> [o |-> o - 1], tgt |-> "", den |-> <<>>, door |-> 0, perm |-> <<>>,
              exp |-> Exp("ok") @@ [tname |-> kind, iname |-> "object", idesc |-> kind, icode |-> 1]]
 
+(* C++ object interface (mpt++/object.cpp)                                  *)
+(* obj[name] = text | value: the name is looked up like a read (unique      *)
+(* prefixes), the assignment goes to the listed name                        *)
+ASetRes(name, v, t2tier) ==
+  LET i == Resolve1(kind, name) IN
+  IF i < 0 THEN Res("silent", "", <<>>)
+  ELSE IF i = 0 THEN Res("refused", "", <<>>)
+  ELSE EntRes(Ent(Props(kind)[i].nc, v, ""), t2tier)
+ASet(o, name, v) ==
+  LET r2 == ASetRes(name, v, TRUE)  r1 == ASetRes(name, v, FALSE) IN
+  /\ v.f # "none" /\ Settled(r2)
+  /\ IF r2.ret = "ok" THEN Commit(o, PutS(St(o), r2.tgt, r2.den)) ELSE Same
+  /\ DoorAnswer("aset", [o |-> o - 1, ents |-> <<EntArg(Ent(name, v, ""))>>], o,
+                IF r1.ret \in {"ok", "refused"} THEN r2.ret ELSE "any", Perm(t1[o], <<r1>>), NoExtra)
+(* for (it = obj.begin(); it != obj.end(); ++it): every listed property once, in order, with its value *)
+AList(o, cst) ==
+  /\ Same
+  /\ obs' = [a |-> "alist", arg |-> [o |-> o - 1, const |-> cst], tgt |-> "", den |-> <<>>, door |-> 0, perm |-> <<>>,
+             exp |-> [ret |-> "ok", names |-> [j \in 1..NListed(kind) |-> Props(kind)[j].name],
+                      vals |-> [j \in 1..NListed(kind) |-> View1(kind, t1[o], Props(kind)[j].name)],
+                      p0 |-> AllView1(kind, t1[1]), p1 |-> AllView1(kind, t1[2]), shared |-> "any"]]
+(* object::set(const node *, handler, data): assigns node after node and stops at the first one it does not assign *)
+NSetStops(e) == ~Named(NodeEnt(e)) \/ e.v.f = "none"
+RECURSIVE NSetRun(_, _, _)
+NSetRun(s, ents, i) ==
+  IF i > Len(ents) THEN [s |-> s, n |-> i - 1]
+  ELSE IF NSetStops(ents[i]) THEN [s |-> s, n |-> i - 1]
+  ELSE LET r == EntRes(NodeEnt(ents[i]), TRUE) IN
+       IF r.ret = "ok" THEN NSetRun(PutS(s, r.tgt, r.den), ents, i + 1) ELSE [s |-> s, n |-> i - 1]
+NSetRs(ents) == [i \in 1..Len(ents) |-> LET r == EntRes(NodeEnt(ents[i]), FALSE) IN
+                                         IF NSetStops(ents[i]) /\ r.ret = "ok" THEN Res("either", r.tgt, r.den) ELSE r]
+NSet(o, ents) ==
+  LET run == NSetRun(St(o), ents, 1) IN
+  /\ \A i \in 1..Len(ents) : ents[i].x \in {"", "U"} /\ ents[i].v.f \in {"num", "txt", "rle", "none"}
+                              /\ (ents[i].v.f \in {"txt", "rle"} => ents[i].v.c # <<>>)
+                              /\ (NSetStops(ents[i]) \/ Settled(EntRes(NodeEnt(ents[i]), TRUE)))
+  /\ Commit(o, run.s)
+  /\ DoorAnswer("nset", [o |-> o - 1, proc |-> 1, ents |-> EntArgs(ents)], o, "any", Perm(t1[o], NSetRs(ents)), [napplied |-> run.n])
+
 ---------------------------------------------------------------------------
 (* entry alphabet of the exhaustive / export runs                          *)
 Accepted(pt) ==      \* a value the property takes on the direct route, by form
@@ -364,15 +404,15 @@ ValLists ==          \* what a format / iterator delivers
 FmtOf(vals) == [i \in 1..Len(vals) |-> CASE vals[i].f = "s" -> 115 [] vals[i].f = "f" -> 102 [] vals[i].f = "d" -> 100
                                            [] vals[i].f = "i" -> 105 [] vals[i].f = "y" -> 121 [] vals[i].f = "x" -> 120
                                            [] vals[i].f = "n" -> 110 [] OTHER -> 105]
-DoorNames == {Props(kind)[i].nc : i \in 1..NProps(kind)} \cup {N_bogus}
-Masks == {49, 17, 33, 51, 113, 50, 241} \cup (IF Lvl >= 2 THEN {1, 16, 35, 115, 0} ELSE {})
+DoorNames == {Props(kind)[i].nc : i \in {j \in 1..NProps(kind) : Lvl >= 2 \/ j \in Focus \/ Props(kind)[j].pt.t = "pt"}} \cup {N_bogus}
+Masks == {49, 17, 51, 113} \cup (IF Lvl >= 2 THEN {33, 50, 241, 1, 16, 35, 115, 0} ELSE {})
 
 DoorOp ==
   \/ \E l \in Lists(TextEnts, IF Lvl >= 2 THEN 2 ELSE 1) \cup ArgTriples \cup {<<>>} :
         Args(1, "str", l) \/ (Lvl >= 2 /\ Args(1, "va", l))
   \/ \E l \in Short(TextEnts) \cup ArgTriples : Args(1, "va", l)
   \/ \E l \in Lists(ConvEnts, 1) \cup {<<e, f>> : e \in {x \in ConvEnts : Lvl >= 2 \/ x.v.f \in {"i", "s"}}, f \in {x \in ConvEnts : x.v.f = "d"}} : Args(1, "conv", l)
-  \/ \E m \in Masks : \E l \in Lists(PoolCore \cup PoolOdd, 1) \cup Lists(PoolNodes, 2) \cup NodeTriples
+  \/ \E m \in Masks : \E l \in Lists(PoolCore \cup PoolOdd, 1) \cup Lists(PoolNodes, IF Lvl >= 2 THEN 2 ELSE 1) \cup NodeTriples
                              \cup {<<e, f>> : e \in PoolNodes, f \in {x \in PoolCore : x.name = Props(kind)[1].nc}} :
         Nodes(1, m, IF m % 2 = 1 THEN 1 ELSE 0, l)
   \/ \E nc \in DoorNames : \E vals \in ValLists :
@@ -387,10 +427,21 @@ DoorOp ==
   \/ PrintSet(1, 2) \/ PrintSet(2, 1)
   \/ TName(1)
 
+ASetVals(pt) == {Accepted(pt)[1], RefusedVal(pt)} \cup (IF Lvl >= 2 THEN {Accepted(pt)[2]} ELSE {})
+NSetPool == {e \in PoolCore \cup PoolOdd : e.v.f \in {"num", "txt", "rle", "none"}} \cup {Ent(<<>>, Rle(<<113, 2>>), "U")}
+CxxOp ==
+  \/ \E nm \in GetNames(kind) : Resolve1(kind, nm) >= 0 /\
+        \E v \in ASetVals(Props(kind)[IF Resolve1(kind, nm) = 0 THEN 1 ELSE Resolve1(kind, nm)].pt) : ASet(1, nm, v)
+  \/ AList(1, 0) \/ AList(1, 1) \/ AList(2, 0)
+  \/ \E l \in Lists(NSetPool, IF Lvl >= 2 THEN 2 ELSE 1) \cup NodeTriples \cup {<<>>}
+              \cup {<<e, f>> : e \in {x \in NSetPool : x.name = Props(kind)[1].nc \/ x.x = "U"}, f \in {x \in NSetPool : x.name = Props(kind)[2].nc}} : NSet(1, l)
+
 Next21 ==
   /\ ops < MaxOps /\ ops' = ops + 1
   /\ IF ops = 0 THEN \E l \in Presets : \E o \in {1, 2} : DSet(o, l)
-     ELSE DoorOp \/ (ops = 1 /\ \E l \in Presets : l # <<>> /\ DSet(1, l))
+     ELSE \/ Doors \in {"c", "all"} /\ DoorOp
+          \/ Doors \in {"cxx", "all"} /\ CxxOp
+          \/ (ops = 1 /\ \E l \in Presets : l # <<>> /\ DSet(1, l))
 Init21 == /\ kind \in KindSet
           /\ t2 = <<Def2(kind), Def2(kind)>> /\ t1 = <<Def1(kind), Def1(kind)>>
           /\ nid = 1 /\ ops = 0
@@ -406,7 +457,7 @@ DoorSound == [][IsDoor(obs') =>
                  /\ \A nm \in ReadNames(kind) : InPerm(View2(kind, t2'[obs'.door], nm), obs'.perm[nm])
                  /\ t2'[3 - obs'.door] = t2[3 - obs'.door] /\ t1'[3 - obs'.door] = t1[3 - obs'.door]]_vars
 \* listing / naming reads only
-Reads == [][obs'.a \in {"list", "tname"} => (t2' = t2 /\ t1' = t1)]_vars
+Reads == [][obs'.a \in {"list", "tname", "alist"} => (t2' = t2 /\ t1' = t1)]_vars
 \* printed and set again: equal properties, own strings (OwnStrings invariant), source untouched
 PrintEqual == [][obs'.a = "printset" =>
                   /\ AllView2(kind, t2'[obs'.arg.o + 1]) = AllView2(kind, t2[obs'.arg.from + 1])
